@@ -235,9 +235,11 @@ def run(rep: vk.Report):
         except Exception as ex:
             errors["gen:" + type(ex).__name__] = errors.get("gen:" + type(ex).__name__, 0) + 1
             continue
-        def do(obj, cons, r, mx=None):
+        def do(obj, cons, r, mx=None, P=None):
             nonlocal unsupported, bounds_bad
-            P = Problem()
+            same_problem = P is not None
+            if P is None:
+                P = Problem()
             mx = (r.random() < 0.5) if mx is None else mx
             (P.maximize if mx else P.minimize)(obj)
             for v in obj.get_variables():
@@ -249,7 +251,7 @@ def run(rep: vk.Report):
             if r.random() < 0.5:
                 _ = P.n_variables, P.variables           # the variable list exists BEFORE the constraints arrive
                 hist["variables-read-before-constraints"] = hist.get("variables-read-before-constraints", 0) + 1
-            if cons:
+            if cons and not same_problem:
                 if r.random() < 0.5 and len(cons) >= 2:
                     # a list whose FIRST element brings variables the objective does not mention, the last one only known ones
                     cons = sorted(cons, key=lambda c: -len(c.get_variables() - obj.get_variables()))
@@ -322,9 +324,22 @@ def run(rep: vk.Report):
             cvars = set()
             for c_ in cons:
                 cvars |= set(v.name for v in c_.get_variables())
-            kind = r.randrange(3)
+            kind = r.randrange(4)
             try:
-                if kind == 0 and len(Vp) >= 2:
+                if kind == 3 and len(Vp) >= 2:
+                    # the SAME problem: its objective is replaced by one in which an objective-only variable gives way to a new one that
+                    # sorts elsewhere - as many columns as before, every constraint row laid out anew
+                    cand = [v for v in Vp if v.name not in cvars]
+                    if cand:
+                        u = r.choice(cand)
+                        new_ = _Var(r.choice(["zz_new", "m_new", "A0_new"]))
+                        obj2 = new_ * r.choice([1.5, -2.0, 0.5])
+                        for j_, v in enumerate(Vp):
+                            if v is not u:
+                                obj2 = obj2 + float((j_ % 4) + 1) * v
+                        streams["same-problem:objective-replaced"] = streams.get("same-problem:objective-replaced", 0) + 1
+                        do(obj2 + 2.0, list(P0.constraints), r, r.choice([mx0, not mx0]), P=P0)
+                elif kind == 0 and len(Vp) >= 2:
                     # same number of columns, same first column, one objective-only variable replaced by one that sorts elsewhere
                     cand = [v for v in Vp[1:] if v.name not in cvars] or [v for v in Vp if v.name not in cvars]
                     if cand:
